@@ -174,7 +174,7 @@ let dispatch_ext (op : string) (a : string array) : unit =
     (match x_invert_naive_model x id with
      | None -> if a.(2) = "-" then k.bind_null a.(1)
      | Some r -> if a.(2) <> "-" then k.set_mat a.(2) (mcopy_into (m 2) r) else k.deliver a.(1) a.(2) r)
-  | "trtri_upper" -> k.set_mat a.(1) (x_trtri_upper_simple (m 1))
+  | "trtri_upper" | "trtri_upper_russian" -> k.set_mat a.(1) (x_trtri_upper_simple (m 1))
   (* ------------------------------------------------------------------ C06 *)
   | "solve_left" ->
     (* solve_left A B cutoff check : A is overwritten by its PLUQ factorisation unless the padding
